@@ -581,6 +581,20 @@ theorem step_refines_c {h : Heap} {A A' : Rings} {op : Op} (ok : RingsOK h A) (s
     have h0 := ok.same s
     simp only [exec]; rw [splice_from_empty_ok h0]; exact h0
   | xclear s hlen => exact clear_ok _ _ _ _ (ok.same s) hlen
+  | @xspliceSelf l x xs B s =>
+    have h1 := unlink_ok (ok.same s)
+    obtain ⟨⟨a', xs', e, r1⟩, _, _⟩ := h1.head
+    injection e with e1 e2; subst e1; subst e2
+    have hn : (nodeUnlink h l).next l = l := r1.fwd
+    have : listSplice h l l = nodeUnlink h l := by simp only [listSplice, hn, if_true]
+    simp only [exec, this]; exact h1
+  | @xspliceSelfEmpty l B s =>
+    have h1 := unlink_single_ok (ok.same s)
+    obtain ⟨⟨a', xs', e, r1⟩, _, _⟩ := h1.head
+    injection e with e1 e2; subst e1; subst e2
+    have hn : (nodeUnlink h l).next l = l := r1.fwd
+    have : listSplice h l l = nodeUnlink h l := by simp only [listSplice, hn, if_true]
+    simp only [exec, this]; exact h1
   | cmoveSorted s hf => exact moveSorted_ok (ok.same s) _ hf
   | cmoveSortedFree s hfr hf => exact moveSorted_free_ok (ok.same s) hfr _ hf
   | cinsertInsteadFree s hfr => exact insertInstead_free_ok (ok.same s) hfr
